@@ -53,6 +53,13 @@ CHUNKS = {
     "misc": '"test.op"() {p = array<i32: 1, -2>, q = #builtin.int<5>, r = (i32) -> (), k = {x = true}} : () -> ()',
     "props": '"test.op"() <{prop1 = 1 : i64}> {a = affine_map<(d0)[s0] -> (d0 + s0)>} : () -> ()',
     "dense": '"test.op"() {a = dense<0x7F> : tensor<1xi8>, b = dense<"0x0102"> : tensor<2xi8>, c = dense<> : tensor<0xi1>} : () -> ()',
+    "symstr": '"test.op"() {a = @"\\4F"::@"b", b = "\\4F", c = loc("\\41":1:2)} : () -> ()',
+    "complex": '"test.op"() {c = dense<(1,2)> : tensor<1xcomplex<i32>>, d = dense<1> : tensor<2xcomplex<f32>>} : () -> ()',
+    "zerowidth": '"test.op"() {a = array<i8: 0>, b = i1, c = 9 : i1} : () -> ()',
+    "f80": '"test.op"() {a = dense<1.0> : tensor<1xf80>, b = 0x1 : f80, c = 1.0 : f128} : () -> ()',
+    "affdiv": '"test.op"() {a = affine_map<(d0) -> (d0 floordiv 2, 5 mod 3, 7 ceildiv 1)>} : () -> ()',
+    "metadata": '"test.op"() : () -> ()\n{-# external_resources: {} #-}',
+    "blockdup": '"test.op"() ({\n  "test.termop"()[^a] : () -> ()\n^a:\n  "test.termop"()[^b] : () -> ()\n^b:\n  "test.termop"() : () -> ()\n}) : () -> ()',
 }
 
 ALLOWED = (ParseError, VerifyException, DiagnosticException)
